@@ -33,6 +33,9 @@ type Script struct {
 	// Fork: the shell forks a child (a pipeline or compound command) that does the work and holds the
 	// output pipe; only a signal to the whole process group reaches it.
 	Fork bool
+	// DetachMs: the command leaves a process behind that has left the process group (setsid, a daemon) and
+	// keeps the output pipe open for this long without writing; no signal fzf sends reaches it.
+	DetachMs int
 }
 
 // Proc is an entry of the simulated process table.
@@ -62,6 +65,8 @@ type Proc struct {
 	waited bool
 	Parent *Proc
 	child  *Proc
+	// Detached: has left the process group of the command that started it; not fzf's to clean up
+	Detached bool
 }
 
 // OS is the simulated operating system.
@@ -255,6 +260,29 @@ func (p *Proc) run() {
 		close(p.doneCh)
 		return
 	}
+	if p.script.DetachMs > 0 && p.Parent == nil && p.pipe != nil && !p.killedAlready() {
+		o := p.os
+		o.mu.Lock()
+		o.nextPid++
+		d := &Proc{Pid: o.nextPid, Shell: p.Shell, Command: "[detached] left behind by " + p.Command, Env: p.Env,
+			os: o, Started: o.sim.Now(), Alive: true, killCh: make(chan struct{}), doneCh: make(chan struct{}), pipe: p.pipe, Parent: p, Detached: true}
+		d.Pgid = d.Pid
+		o.Procs = append(o.Procs, d)
+		p.pipe.addWriter()
+		o.mu.Unlock()
+		o.logf("proc %d leaves %d behind (own session, holds the pipe)", p.Pid, d.Pid)
+		ms := p.script.DetachMs
+		o.sim.Go(fmt.Sprintf("proc/%d", d.Pid), func() {
+			d.sleep(ms)
+			o.mu.Lock()
+			d.Alive = false
+			d.Ended = o.sim.Now()
+			o.mu.Unlock()
+			o.logf("proc %d exit code=0", d.Pid)
+			d.pipe.closeWrite()
+			close(d.doneCh)
+		})
+	}
 	alive := true
 	for _, c := range p.script.Chunks {
 		if !p.sleep(c.DelayMs) {
@@ -372,7 +400,7 @@ func (o *OS) AliveUnkilled() []*Proc {
 	defer o.mu.Unlock()
 	var out []*Proc
 	for _, p := range o.Procs {
-		if p.Alive && !p.Killed {
+		if p.Alive && !p.Killed && !p.Detached {
 			if p.pipe != nil && p.pipe.blocked > 0 {
 				// blocked in write(2) on a pipe only fzf reads: when fzf is gone (exit, exec: the descriptor is
 				// close-on-exec) the write fails with SIGPIPE and the process ends (and the shell waiting for it) - nothing stays behind
